@@ -7,6 +7,8 @@
 //!   kinds   one letter per stream: f = whole FST, r = range over a larger FST, s = search with an
 //!           automaton accepting exactly the wanted keys over a larger FST, u = user Streamer over a Vec
 //!   streams "." (none) or stream|stream|…; stream = "_" (empty) or hexkey:val,… ("-" = empty key)
+//! M ends in "|repoll=<n>": the number of polls made, over all the runs of the case, on user streams
+//! that had already returned None (the model says 0).
 //! The model side ignores the second field.  Every case is also run through the baseline
 //! (raw API, all streams whole FSTs); disagreement between the two is an X failure.
 use crate::common::*;
@@ -25,6 +27,10 @@ type Items = Vec<(Vec<u8>, Vec<(usize, u64)>)>;
 // They are deliberately NOT inert after exhaustion (`Streamer`, like `Iterator`, gives no "fused" guarantee - think
 // of a paged cursor): polled again after having returned None, they yield one key that belongs to no input.
 static POISON: [u8; 4] = [0xFF, 0xFE, 0xFD, 0xFC];
+thread_local! {
+    /// polls made, during the current `execute`, on user streams that had already returned None
+    static REPOLLS: std::cell::Cell<u64> = std::cell::Cell::new(0);
+}
 fn after_end(i: &mut usize, len: usize) -> bool {
     // i == len: the regular end (None); i == len + 1: polled again -> poison once; later: None
     if *i == len {
@@ -33,8 +39,14 @@ fn after_end(i: &mut usize, len: usize) -> bool {
     } else if *i == len + 1 {
         *i += 1;
         xcount("user_stream_polled_after_none");
+        REPOLLS.with(|c| c.set(c.get() + 1));
         true
     } else {
+        // polled yet again: counted as well, answers None
+        if *i > len + 1 {
+            xcount("user_stream_polled_after_none");
+            REPOLLS.with(|c| c.set(c.get() + 1));
+        }
         false
     }
 }
@@ -787,6 +799,8 @@ impl Prop for P {
     }
 
     fn execute(&self, case: &str) -> String {
+        REPOLLS.with(|c| c.set(0));
+        let repolls = || REPOLLS.with(|c| c.get());
         let mut it = case.split('\t');
         let op = it.next().unwrap();
         let ak = it.next().unwrap();
@@ -812,7 +826,7 @@ impl Prop for P {
             if b0 != b1 {
                 x = format!("baseline says {} but {} says {}", b0, ak, b1);
             }
-            return format!("S:{}\tM:{}\tX:{}", b1, b1, x);
+            return format!("S:{}\tM:{}|repoll={}\tX:{}", b1, b1, repolls(), x);
         }
         if op == "difference" && ss.is_empty() {
             // outside the contract: the expected observation is the panic of swap_remove(0) itself
@@ -858,6 +872,6 @@ impl Prop for P {
         if tie_canon(&b) != tie_canon(&got) {
             x = format!("baseline {} but {} gives {}", show_items(&tie_canon(&b)), ak, show_items(&tie_canon(&got)));
         }
-        format!("S:{}\tM:{}\tX:{}", show_items(&by_index(&got)), show_items(&tie_canon(&got)), x)
+        format!("S:{}\tM:{}|repoll={}\tX:{}", show_items(&by_index(&got)), show_items(&tie_canon(&got)), repolls(), x)
     }
 }
